@@ -286,6 +286,7 @@ func init() {
 			e.unsupported("model limitation: %s", e.strArg(args[0], "vpUnsupported"))
 			return nil, true
 		},
+		"vpStructFields": func(e *Engine, fr *Frame, args []Value) (Value, bool) { return e.structFields(args), true },
 		"vpJSONFill": func(e *Engine, fr *Frame, args []Value) (Value, bool) {
 			return e.jsonFill(args), true
 		},
